@@ -12,7 +12,7 @@ import (
 
 func init() {
 	register("C19", runC19, propMeta{
-		Explanation: "Lockset analysis (must-hold locks per program point, with fork/join order and ownership) of gengine's own shared state against a guarded-by table that is itself checked for completeness. One obligation per (shared field, accessing function, read/write). Discharged by: the guarding mutex held at the access (GenginePool.freeGengines/runningLock, additionGengines/additionLock, ruleBuilder+clear+execModel/updateLock, DataContext.base/lockBase, the local-variable store/lockVars, Gengine.returnResult contents/Gengine.lock, builder-side Kc writes/buildLock, pool-side Kc writes/updateLock); construction (the object is still private to the function that allocates it); immutability after construction (no store outside the constructor: rbSlice, max, apis, additionNum, RuleBuilder.Dc, gengineWrapper.tag/gengine/addition); ownership between pop and put (gengineWrapper.rulebuilder, Gengine.returnResult field written by the executing goroutine before it forks); fork/join order for variables captured by goroutines (every store inside a goroutine literal to a variable of the enclosing function holds a local mutex; reads by the parent come after Wait — A4 under C05/C13/C18). Completeness: every field of the engine, builder, context and iter packages that is stored to anywhere must appear in the table. Undischarged on today's tree, reported as KNOWN-FINDING and not as holding: reads of gp.clear and gp.execModel by the request path without updateLock (D12b) and the unsynchronised read of the published RuleBuilder.Kc by executions (D12c). (L8) the happens-before obligations of the fork/join rule for every execute method that starts goroutines and for the conc statement: the counter is raised before a goroutine starts, every goroutine counts down exactly once, after its work and as the last thing it does (nothing shared is written, no lock taken after Done()), the shared error list is appended to under its mutex, and the starter passes Wait() before it reads or returns. (L9) a pool instance changes hands through the free list under its lock, which orders the old owner's accesses before the new owner's only if the hand-back is the last thing a request does with the instance: in every pool execute method the request's data is cleared before the wrapper is put back (two deferred calls run in the reverse order of their registration), the wrapper is put back once and by the deferred code only, and the result map is read from the instance before it goes back. (L7) outside the compile step nothing writes into a compiled node, nor into the elements of a slice or the entries of a map held in one of its fields. Not decided: races on host data reached through injected pointers. (L10) no two pool instances share an engine object. (L11) a package-level variable of a product package written after initialisation is accessed under one common mutex, writes exclusively. The two free lists and the slice of rule builders are each a slice made for it: no cell is written under one list's lock and read under the other's.",
+		Explanation: "Lockset analysis (must-hold locks per program point, with fork/join order and ownership) of gengine's own shared state against a guarded-by table that is itself checked for completeness. One obligation per (shared field, accessing function, read/write). Discharged by: the guarding mutex held at the access (GenginePool.freeGengines/runningLock, additionGengines/additionLock, ruleBuilder+clear+execModel/updateLock, DataContext.base/lockBase, the local-variable store/lockVars, Gengine.returnResult contents/Gengine.lock, builder-side Kc writes/buildLock, pool-side Kc writes/updateLock); construction (the object is still private to the function that allocates it); immutability after construction (no store outside the constructor: rbSlice, max, apis, additionNum, RuleBuilder.Dc, gengineWrapper.tag/gengine/addition); ownership between pop and put (gengineWrapper.rulebuilder, Gengine.returnResult field written by the executing goroutine before it forks); fork/join order for variables captured by goroutines (every store inside a goroutine literal to a variable of the enclosing function holds a local mutex; reads by the parent come after Wait — A4 under C05/C13/C18). Completeness: every field of the engine, builder, context and iter packages that is stored to anywhere must appear in the table. Undischarged on today's tree, reported as KNOWN-FINDING and not as holding: reads of gp.clear and gp.execModel by the request path without updateLock (D12b) and the unsynchronised read of the published RuleBuilder.Kc by executions (D12c). (L8) the happens-before obligations of the fork/join rule for every execute method that starts goroutines and for the conc statement: the counter is raised before a goroutine starts, every goroutine counts down exactly once, after its work and as the last thing it does (nothing shared is written, no lock taken after Done()), the shared error list is appended to under its mutex, and the starter passes Wait() before it reads or returns. (L9) a pool instance changes hands through the free list under its lock, which orders the old owner's accesses before the new owner's only if the hand-back is the last thing a request does with the instance: in every pool execute method the request's data is cleared before the wrapper is put back (two deferred calls run in the reverse order of their registration), the wrapper is put back once and by the deferred code only, and the result map is read from the instance before it goes back. (L7) outside the compile step nothing writes into a compiled node, nor into the elements of a slice or the entries of a map held in one of its fields. Not decided: races on host data reached through injected pointers. (L10) no two pool instances share an engine object. (L11) a package-level variable of a product package written after initialisation is accessed under one common mutex, writes exclusively. The two free lists and the slice of rule builders are each a slice made for it: no cell is written under one list's lock and read under the other's. (L12) every engine method starts from a freshly made result map: the map a caller got back is not written by a later request.",
 		Assumptions: []string{"Go memory model: mutex, go statement and WaitGroup edges", "host objects are the host's responsibility"},
 		Trusted:     commonTrusted,
 	})
@@ -536,6 +536,11 @@ func runC19(c *Ctx) {
 	// owner does with the instance: the data is cleared before the put (two defers run in reverse
 	// order of registration), the put happens once and in the deferred code only, and the result map
 	// is read from the instance before it goes back
+	// the map a request got back is its own: every engine method starts from a freshly made result map
+	// (C11-M1) -- a map emptied and used again is written by the next request while the caller of the
+	// last one still reads it
+	c.ruleM1("L12-result-map-made-per-execution", c.engineExecFns())
+	c.Min("L12-result-map-made-per-execution", 21)
 	c.ruleLifecycle("L9-nothing-touched-after-hand-back", map[string]bool{"acquire": true, "clear-before-put": true, "puts-own-wrapper": true,
 		"engine-call1-own-result": true, "engine-call2-own-result": true, "engine-call3-own-result": true, "engine-call4-own-result": true})
 	c.Min("L9-nothing-touched-after-hand-back", 60)
